@@ -110,30 +110,36 @@ fn data(rng: &mut Rng, pset: i128, n: usize, class: u64) -> Vec<i128> {
 
 pub fn generate(tier: &str, rng: &mut Rng, out: &mut Vec<Rec>) {
     let thorough = tier == "thorough";
-    // tables: every size, every prime set, both directions up to 2^10 (2^12 for Primes30)
+    // tables: every prime set and both directions up to 2^8 (quick) / 2^12 (thorough); Primes30 up to 2^11 in quick
     for pset in [29i128, 30, 31] {
-        let top = if pset == 30 || thorough { 12 } else { 9 };
+        let top = if thorough { 12 } else if pset == 30 { 11 } else { 8 };
         for logn in 0..=top { for dir in [0i128, 1] { out.push(Rec::new(7203, pad(vec![3, pset, logn, dir]), vec![])); } }
     }
-    // networks: every log n, all value classes at small sizes, fewer at large sizes
-    let reps = if thorough { 6 } else { 1 };
-    for _ in 0..reps {
+    // networks: every log n <= 12; all value classes x all prime sets at small sizes, fewer at large sizes
+    // (the extracted model needs about 7 s for one n = 4096 record)
+    let reps = if thorough { 5 } else { 1 };
+    for rep in 0..reps {
         for logn in 0..=12u32 {
             let n = 1usize << logn;
             for code in [7201i64, 7202] {
-                let classes: Vec<u64> = if logn <= 6 { (0..8).collect() } else if logn <= 9 { vec![0, 2, 5, 7] } else if logn <= 11 { vec![rng.pick(&[0, 2, 3]), 7] } else { vec![rng.pick(&[0, 2, 3, 5, 7])] };
-                for class in classes {
-                    let psets: Vec<i128> = if logn <= 8 { vec![29, 30, 31] } else if logn <= 11 { vec![30, rng.pick(&[29, 31])] } else { vec![if code == 7201 { 30 } else { rng.pick(&[29, 30, 31]) }] };
-                    for pset in psets {
-                        out.push(Rec::new(code, pad(vec![3, pset, logn as i128]), vec![data(rng, pset, n, class)]));
-                    }
+                let cases: Vec<(u64, i128)> = if logn <= 5 {
+                    (0..8u64).flat_map(|c| [29i128, 30, 31].map(|p| (c, p))).collect()
+                } else if logn <= 8 {
+                    [0u64, 2, 5, 7].iter().enumerate().map(|(j, c)| (*c, [29i128, 30, 31][(j + logn as usize + rep) % 3])).collect()
+                } else if logn == 9 {
+                    vec![(rng.pick(&[0, 2, 3]), 30), (7, rng.pick(&[29, 31]))]
+                } else {
+                    vec![(rng.pick(&[0, 2, 3, 5, 7]), if code == 7201 && logn == 12 { 30 } else { rng.pick(&[29, 30, 30, 31]) })]
+                };
+                for (class, pset) in cases {
+                    out.push(Rec::new(code, pad(vec![3, pset, logn as i128]), vec![data(rng, pset, n, class)]));
                 }
             }
         }
     }
     // pipeline: |a|,|b| < 2^bits with n * 2^(2 bits) * 2 < Q
-    for it in 0..(if thorough { 120 } else { 36 }) {
-        let logn = (it % 9) as u32 + if it % 4 == 3 { 2 } else { 0 }; // 0..10
+    for it in 0..(if thorough { 90 } else { 18 }) {
+        let logn = (it % 9) as u32 + if thorough && it % 4 == 3 { 2 } else { 0 }; // 0..8 (10 in thorough)
         let n = 1usize << logn;
         let pset: i128 = rng.pick(&[29, 30, 30, 31]);
         let total = match pset { 29 => 115u32, 31 => 123, _ => 119 };
